@@ -95,8 +95,57 @@ def eval_case(spec):
             out["inconclusive"] = True
     except Exception as e:
         fails.append(("flat_module_does_not_export", "%s: %s" % (type(e).__name__, str(e)[-200:])))
+    if not fails and spec.get("again"):
+        # flatten is asked again after one leaf of the (elaborated) hierarchy was re-targeted in place - the edit a PDK
+        # compile performs on every leaf it maps; the second answer describes the hierarchy as it is then
+        NEW = 987654321
+        try:
+            edited = retarget_one_leaf(h, top, NEW, spec["again"])
+            if edited:
+                flat2 = hflatten(top)
+                got2 = pkgread.flatten(h.to_proto(flat2), tag_params=design.TAG_PARAMS)
+                n_new = sum(1 for d in got2["devices"] if d["params"] == NEW)
+                out["again"] = True
+                if len(got2["devices"]) != len(want["devices"]):
+                    fails.append(("leaf_count:again", "%d leaf devices in the hierarchy, %d after the second flatten" % (len(want["devices"]), len(got2["devices"]))))
+                elif n_new == 0:
+                    fails.append(("second_flatten_stale", "instance %r was re-targeted (its tag parameter set to %d) after a first flatten(); a second flatten() of the same top shows no device with that tag" % (edited, NEW)))
+        except Exception as e:
+            fails.append(("second_flatten_raises", "%s: %s" % (type(e).__name__, str(e)[-200:])))
     out.update(status="returned", fails=fails)
     return out
+
+
+def retarget_one_leaf(h, top, newtag, pick):
+    """Give one leaf instance reachable from `top` a new call of the same cell with tag `newtag`; returns its name or None."""
+    leaves, seen = [], set()
+
+    def walk(m):
+        if id(m) in seen:
+            return
+        seen.add(id(m))
+        for inst in m.instances.values():
+            if isinstance(inst.of, (h.PrimitiveCall, h.ExternalModuleCall)):
+                leaves.append((m, inst))
+            elif isinstance(inst.of, h.Module):
+                walk(inst.of)
+    walk(top)
+    if not leaves:
+        return None
+    m, inst = leaves[pick % len(leaves)]
+    if isinstance(inst.of, h.ExternalModuleCall):
+        inst.of = inst.of.module(tag=newtag)
+    else:
+        import hdl21.primitives as hp
+        tagname = None
+        for cls, k in ((hp.IdealResistor, "R"), (hp.IdealCapacitor, "C"), (hp.IdealInductor, "L"), (hp.VoltageControlledVoltageSource, "Vcvs"),
+                       (hp.Mos, "Mos"), (hp.Bipolar, "Bipolar"), (hp.Diode, "Diode"), (hp.ThreeTerminalResistor, "Res3")):
+            if inst.of.prim is cls:
+                tagname = model.PRIMS[k][3]
+        if tagname is None:
+            return None
+        inst.of = inst.of.prim(**{tagname: newtag})
+    return "%s.%s" % (m.name, inst.name)
 
 
 def adversarial(d, spec):
@@ -167,6 +216,8 @@ def shard(idx, n, tier):
             spec = data.draw(gen.designs(opts))
             feats = [f for f in spec.get("features", []) if f in ("array", "pair", "bundle_port", "noconn", "portref", "slice", "concat", "array_per_element")]
             case = {k: spec[k] for k in spec if k != "features"}
+            if data.draw(st.integers(0, 3)) == 0:
+                case["again"] = data.draw(st.integers(1, 50))
             if vname == "names":
                 adv = adversarial(gen.D(data.draw), case)
                 if adv is None:
@@ -193,6 +244,8 @@ def shard(idx, n, tier):
             feats += ["depth%d" % dp, "class_must" if v["must"] else "class_may_refuse"]
             if extbelow:
                 feats.append("ext_leaf_below_top")
+            if v.get("again"):
+                feats.append("flattened_again_after_in_place_retarget")
             if v["status"] == "raised":
                 feats.append("flatten_raised")
                 if v["must"]:
